@@ -1,4 +1,5 @@
 import Nv.Proofs.C05Mem
+import Nv.Proofs.C05Hist
 /-! C05 — recency: a hit / overwrite moves the key to the front; a Set of a new key evicts at most the tail. -/
 namespace Nv.C05
 
@@ -114,5 +115,251 @@ theorem at_step {c : Cfg} (hc : c.indexOrder = .beforeEvict) {m : Mem} (hb : Bou
       · exact at_mono hp (Nat.le_succ i)
       · exact at_touch hp hbp (y := y) (by simpa [hky] using hy) (by simpa [hky] using hk)
     · exact at_insertNew hc hp (by omega) _
+
+/-! ### the full recency clause: the nodes ahead of `x` are among the distinct keys touched since -/
+
+/-- `x` is on the recency list and every node ahead of it has its key in `S` -/
+def Ahead (m : Mem) (x : Node) (S : List Key) : Prop :=
+  ∃ pre post, m.live = pre ++ x :: post ∧ ∀ n ∈ pre, n.key ∈ S
+
+theorem mem_addKey {k a : Key} {S : List Key} : a ∈ addKey k S ↔ a = k ∨ a ∈ S := by
+  unfold addKey; split
+  · rename_i h; constructor
+    · intro ha; exact Or.inr ha
+    · rintro (e | ha)
+      · subst e; exact h
+      · exact ha
+  · simp
+
+theorem nodup_addKey {k : Key} {S : List Key} (h : S.Nodup) : (addKey k S).Nodup := by
+  unfold addKey; split
+  · exact h
+  · rename_i hk; exact List.nodup_cons.2 ⟨hk, h⟩
+
+theorem length_addKey_ge (k : Key) (S : List Key) : S.length ≤ (addKey k S).length := by
+  unfold addKey; split <;> simp
+
+theorem touchedBy_nodup : ∀ (ops : List Op) (S : List Key), S.Nodup → (touchedBy S ops).Nodup := by
+  intro ops
+  induction ops with
+  | nil => intro S h; exact h
+  | cons op ops ih =>
+    intro S h
+    simp only [touchedBy]
+    apply ih
+    split
+    · exact nodup_addKey h
+    · exact h
+
+theorem touchedBy_length_ge : ∀ (ops : List Op) (S : List Key), S.length ≤ (touchedBy S ops).length := by
+  intro ops
+  induction ops with
+  | nil => intro S; exact Nat.le_refl _
+  | cons op ops ih =>
+    intro S
+    simp only [touchedBy]
+    split
+    · exact Nat.le_trans (length_addKey_ge _ S) (ih _)
+    · exact ih _
+
+theorem ahead_mono {m : Mem} {x : Node} {S S' : List Key} (h : Ahead m x S) (hs : ∀ a ∈ S, a ∈ S') : Ahead m x S' := by
+  obtain ⟨pre, post, hl, hp⟩ := h
+  exact ⟨pre, post, hl, fun n hn => hs _ (hp n hn)⟩
+
+theorem mem_eraseKey {k : Key} {l : List Node} {n : Node} (h : n ∈ eraseKey k l) : n ∈ l :=
+  (eraseKey_sublist k l).subset h
+
+theorem ahead_removeKey {m : Mem} {x : Node} {S : List Key} (h : Ahead m x S) {k' : Key} (hk : x.key ≠ k') :
+    Ahead (m.removeKey k') x S := by
+  obtain ⟨pre, post, hl, hp⟩ := h
+  refine ⟨eraseKey k' pre, eraseKey k' post, ?_, fun n hn => hp n (mem_eraseKey hn)⟩
+  simp [Mem.removeKey, hl, eraseKey_append, eraseKey, hk]
+
+theorem ahead_touch {m : Mem} {x : Node} {S : List Key} (h : Ahead m x S) (hb : Bounded m) {n y : Node}
+    (hy : m.lookup n.key = some y) (hk : x.key ≠ n.key) : Ahead (m.touch n) x (addKey n.key S) := by
+  obtain ⟨pre, post, hl, hp⟩ := h
+  have hlive : findKey n.key m.live = some y := by
+    simp only [Mem.lookup, hb.1, findKey] at hy
+    split at hy
+    · rename_i z hz; rw [hz, hy]
+    · cases hy
+  refine ⟨n :: eraseKey n.key pre, eraseKey n.key post, ?_, ?_⟩
+  · rw [touch_head hlive, hl]; simp [eraseKey_append, eraseKey, hk]
+  · intro a ha
+    rcases List.mem_cons.1 ha with e | e
+    · subst e; exact mem_addKey.2 (Or.inl rfl)
+    · exact mem_addKey.2 (Or.inr (hp a (mem_eraseKey e)))
+
+/-- the keys ahead of `x` are distinct and lie in `S`, so there are at most `|S|` of them -/
+theorem ahead_insertNew {c : Cfg} (hc : c.indexOrder = .beforeEvict) {m : Mem} (hwf : WF m) {x : Node} {S : List Key}
+    (h : Ahead m x S) (n : Node) (hnew : m.lookup n.key = none) (hcard : (addKey n.key S).length < m.size) :
+    Ahead (m.insertNew c n) x (addKey n.key S) := by
+  obtain ⟨pre, post, hl, hp⟩ := h
+  have hni := lookup_none_iff.1 hnew
+  simp only [Mem.indexed, List.mem_append, not_or] at hni
+  have hnd : (keys m.live).Nodup := (wf_iff.1 hwf).1
+  have hpre : (keys pre).Nodup := by
+    rw [hl] at hnd
+    simp only [keys, List.map_append] at hnd
+    exact (List.nodup_append.1 hnd).1
+  have hnk : n.key ∉ keys pre := by
+    intro hm; apply hni.1; rw [hl]; simp only [keys, List.map_append, List.mem_append]; exact Or.inl hm
+  have hlen : (n.key :: keys pre).length ≤ (addKey n.key S).length := by
+    apply nodup_subset_length (List.nodup_cons.2 ⟨hnk, hpre⟩)
+    intro a ha
+    rcases List.mem_cons.1 ha with e | e
+    · exact mem_addKey.2 (Or.inl e)
+    · simp only [keys, List.mem_map] at e
+      obtain ⟨y, hy, rfl⟩ := e
+      exact mem_addKey.2 (Or.inr (hp y hy))
+  have hroom : pre.length + 1 < m.size := by
+    simp only [List.length_cons, keys, List.length_map] at hlen; omega
+  obtain ⟨post', e⟩ := insertNew_keeps hc m n x pre post hl (Or.inl hroom)
+  refine ⟨n :: pre, post', e, ?_⟩
+  intro a ha
+  rcases List.mem_cons.1 ha with e' | e'
+  · subst e'; exact mem_addKey.2 (Or.inl rfl)
+  · exact mem_addKey.2 (Or.inr (hp a e'))
+
+/-- one call that neither addresses the key of `x` nor is a Clear keeps `x` on the list, with only touched keys ahead -/
+theorem ahead_step {c : Cfg} (hc : c.indexOrder = .beforeEvict) {m : Mem} (hwf : WF m) (hb : Bounded m) {x : Node}
+    {S : List Key} (h : Ahead m x S) (now : Int) (op : Op) (hop : opKey op ≠ some x.key) (hcl : op ≠ .clear)
+    (hcard : (match opKey op with | some k => addKey k S | none => S).length < m.size) :
+    Ahead (m.step c now op).1 x (match opKey op with | some k => addKey k S | none => S) := by
+  cases op with
+  | clear => exact absurd rfl hcl
+  | tick _ => exact h
+  | remove k' =>
+    have hk : x.key ≠ k' := fun e => hop (by simp [opKey, e])
+    exact ahead_mono (ahead_removeKey h hk) (fun a ha => mem_addKey.2 (Or.inr ha))
+  | get k' o =>
+    have hk : x.key ≠ k' := fun e => hop (by simp [opKey, e])
+    have up : ∀ {m'}, Ahead m' x S → Ahead m' x (addKey k' S) :=
+      fun h' => ahead_mono h' (fun a ha => mem_addKey.2 (Or.inr ha))
+    simp only [Mem.step, Mem.get, opKey]
+    split
+    · exact up h
+    · rename_i y hy
+      have hky := lookup_key hy
+      split
+      · exact up (ahead_removeKey h hk)
+      · split
+        · exact up (ahead_removeKey h hk)
+        · cases hu : o.update with
+          | none =>
+            have := ahead_touch (n := y) h hb (y := y) (by simpa [hky] using hy) (by simpa [hky] using hk)
+            simpa [hky] using this
+          | some t =>
+            have := ahead_touch (n := { y with dl := deadline now (getTtl m.dttl t) }) h hb (y := y)
+              (by simpa [hky] using hy) (by simpa [hky] using hk)
+            simpa [hky] using this
+  | set k' v o =>
+    have hk : x.key ≠ k' := fun e => hop (by simp [opKey, e])
+    have up : ∀ {m'}, Ahead m' x S → Ahead m' x (addKey k' S) :=
+      fun h' => ahead_mono h' (fun a ha => mem_addKey.2 (Or.inr ha))
+    simp only [Mem.step, Mem.set, opKey] at hcard ⊢
+    have hp : Ahead (m.preSet c now k') x S := by
+      unfold Mem.preSet; split
+      · unfold Mem.purgeIfExpired; split
+        · split
+          · exact ahead_removeKey h hk
+          · exact h
+        · exact h
+      · exact h
+    have hbp := bounded_preSet (c := c) hb now k'
+    have hwp := wf_preSet (c := c) hwf now k'
+    have hsz := size_preSet c m now k'
+    generalize m.preSet c now k' = m' at hp hbp hwp hsz
+    unfold Mem.setCore
+    split
+    · rename_i y hy
+      have hky := lookup_key hy
+      split
+      · exact up hp
+      · have := ahead_touch (n := { y with val := v, dl := if o.keepTTL = true then y.dl else deadline now (setTtl m' o) })
+          hp hbp (y := y) (by simpa [hky] using hy) (by simpa [hky] using hk)
+        simpa [hky] using this
+    · rename_i hn
+      exact ahead_insertNew hc hwp hp ⟨k', v, deadline now (setTtl m' o)⟩ hn (by simpa [hsz] using hcard)
+
+theorem ahead_lookup {m : Mem} (hwf : WF m) {x : Node} {S : List Key} (h : Ahead m x S) : m.lookup x.key = some x := by
+  obtain ⟨pre, post, hl, -⟩ := h
+  have hnd : (keys m.live).Nodup := (wf_iff.1 hwf).1
+  rw [hl] at hnd
+  simp only [keys, List.map_append, List.map_cons] at hnd
+  have hnot : x.key ∉ keys pre := by
+    intro hm
+    exact (List.nodup_append.1 hnd).2.2 x.key hm x.key (by simp) rfl
+  have : findKey x.key m.live = some x := by
+    rw [hl]
+    clear hl hnd
+    induction pre with
+    | nil => simp [findKey]
+    | cons a pre ih =>
+      simp only [keys, List.map_cons, List.mem_cons, not_or] at hnot
+      have : ¬ a.key = x.key := fun e => hnot.1 e.symm
+      simp only [List.cons_append, findKey, this, if_false]
+      exact ih (by simpa [keys] using hnot.2)
+  simp [Mem.lookup, this]
+
+theorem ahead_run {c : Cfg} (hc : c.indexOrder = .beforeEvict) {x : Node} : ∀ (ops : List Op) (s : MSys) (S : List Key),
+    WF s.mem → Bounded s.mem → Ahead s.mem x S → (∀ op ∈ ops, opKey op ≠ some x.key ∧ op ≠ .clear) →
+    (touchedBy S ops).length < s.mem.size → Ahead (final (MSys.step c) s ops).mem x (touchedBy S ops) := by
+  intro ops
+  induction ops with
+  | nil => intro s S _ _ h _ _; exact h
+  | cons op ops ih =>
+    intro s S hwf hb h hops hcard
+    rw [final_cons]
+    simp only [touchedBy] at hcard ⊢
+    obtain ⟨hm, _⟩ := msys_step_mem c s op
+    have hsz : (MSys.step c s op).1.mem.size = s.mem.size := by rw [hm]; exact step_size _ _ _ _
+    apply ih
+    · rw [hm]; exact wf_step hwf _ _
+    · rw [hm]; exact bounded_step hc hb _ _
+    · rw [hm]
+      exact ahead_step hc hwf hb h _ op (hops op (by simp)).1 (hops op (by simp)).2
+        (Nat.lt_of_le_of_lt (touchedBy_length_ge ops _) hcard)
+    · intro o ho; exact hops o (by simp [ho])
+    · rw [hsz]; exact hcard
+
+/-- a successful Set leaves the key's node at the head of the recency list (size ≥ 1) -/
+theorem set_head {c : Cfg} (hc : c.indexOrder = .beforeEvict) {m : Mem} (hb : Bounded m) (hs : 1 ≤ m.size) (now : Int)
+    (k : Key) (v : Val) (o : SetOpt) (hok : (m.set c now k v o).2 = .ok) :
+    ∃ x rest, (m.set c now k v o).1.live = x :: rest ∧ x.key = k := by
+  have hbp := bounded_preSet (c := c) hb now k
+  have hsz := size_preSet c m now k
+  simp only [Mem.set] at hok ⊢
+  generalize m.preSet c now k = m' at hbp hsz hok
+  unfold Mem.setCore at hok ⊢
+  split
+  · rename_i y hy
+    have hky := lookup_key hy
+    split
+    · rename_i hm; simp [hy, hm] at hok
+    · have hlive : findKey k m'.live = some y := by
+        have := hy
+        simp only [Mem.lookup, hbp.1, findKey] at this
+        split at this
+        · rename_i z hz; rw [hz, this]
+        · cases this
+      refine ⟨_, _, touch_head (n := { y with val := v, dl := if o.keepTTL = true then y.dl else deadline now (setTtl m' o) })
+        (x := y) (by simpa [hky] using hlive), by simp [hky]⟩
+  · rcases insertNew_live hc m' ⟨k, v, deadline now (setTtl m' o)⟩ with ⟨_, e⟩ | ⟨hfull, e⟩
+    · exact ⟨_, _, e, rfl⟩
+    · have hne : m'.live ≠ [] := by
+        intro h0; rw [h0] at hfull; simp at hfull; omega
+      rw [List.dropLast_cons_of_ne_nil hne] at e
+      exact ⟨_, _, e, rfl⟩
+
+theorem writesTtl_of_opKey {k : Key} {op : Op} (h : opKey op ≠ some k) : writesTtl k op = false := by
+  cases op with
+  | set k' v o => simp only [writesTtl, decide_eq_false_iff_not]; intro e; exact h (by simp [opKey, e])
+  | get k' o =>
+    have : ¬ k' = k := fun e => h (by simp [opKey, e])
+    simp [writesTtl, this]
+  | remove _ => rfl
+  | clear => rfl
+  | tick _ => rfl
 
 end Nv.C05
